@@ -64,6 +64,8 @@ func checkC12(c *Ctx) {
 	ruleCountBeforeSend(c, "C12.o")
 	c.rule("C12.p", "a number set copied out of a command field is not mutated in the copy (the record of delivered messages is kept)", 1)
 	ruleLostUpdateOnCopy(c, "C12.p", "imapclient")
+	c.rule("C12.q", "no item is sent ahead of one held back in a one-slot buffer (LIST-STATUS entries keep their order and their STATUS)", 1)
+	ruleNoOvertakingHeldItem(c, "C12.q")
 }
 
 var mirrorTypes = map[string]bool{"SelectedMailbox": true, "SelectData": true, "UnilateralDataMailbox": true}
